@@ -17,7 +17,8 @@ def handlers : List (String × (List String → Option String)) :=
     ("bracket", Protocol.Bracket.handle), ("skeleton", Protocol.Skeletons.handle),
     ("trows", Timed.handleRows), ("tkey", Timed.handleKey),
     ("init-table", InitTable.handleTable), ("init-untable", InitTable.handleUntable), ("init-apply", InitTable.handleApply), ("init-save", InitTable.handleSave),
-    ("init-accept", Init.handleAccept), ("init-rhs", Init.handleRhs), ("charac", Init.handleCharac), ("init-saved", Init.handleSaved) ]
+    ("init-accept", Init.handleAccept), ("init-rhs", Init.handleRhs), ("charac", Init.handleCharac), ("init-saved", Init.handleSaved),
+    ("relink", Protocol.Graph.handle) ]
 
 /-- One request per line: `<kind> <args…>`; one canonical reply per line. -/
 def dispatch (line : String) : String :=
